@@ -331,7 +331,8 @@ def poly_collection(w, ds, conv, e) -> dict:
         data = e["var"] if e.get("mode", "name") == "name" else ds[e["var"]].copy()
         if e.get("mode") == "anon":
             data = xarray.DataArray(ds[e["var"]].values, dims=ds[e["var"]].dims)
-    coll = conv.make_poly_collection(data, **kwargs) if data is not None else conv.make_poly_collection(**kwargs)
+    make = conv.make_patch_collection if e.get("api") == "make_patch_collection" else conv.make_poly_collection
+    coll = make(data, **kwargs) if data is not None else make(**kwargs)
     paths = [ring_q(p.vertices) for p in coll.get_paths()]
     arr = coll.get_array()
     clim = coll.get_clim()
